@@ -25,18 +25,16 @@ prop('C04',
 LL = r'^std::collections::LinkedList::<[^>]*>::'
 # (function, required callee patterns, forbidden callee patterns, meaning)
 ORIENTATION = [
-    ('data_struct::revision_map::RevisionMap::<K, V>::insert_in_chain', [LL + 'push_front$'], [LL + 'push_back$', LL + 'append$'],
-     'a new revision is prepended'),
-    ('data_struct::revision_map::RevisionMap::<K, V>::insert_new_chain', [LL + 'push_front$|' + LL + 'push_back$'], [],
-     'a new chain holds the value'),
+    ('data_struct::revision_map::RevisionMap::<K, V>::insert', [LL + 'push_front$'], [LL + 'push_back$', LL + 'append$'],
+     'a new revision is prepended (directly or through the insert_in_chain / insert_new_chain helpers)'),
     ('data_struct::revision_map::RevisionMap::<K, V>::get_latest', [LL + 'front$'], [LL + 'back$'], 'latest = front'),
     ('data_struct::revision_map::RevisionMap::<K, V>::get_latest_mut', [LL + 'front_mut$'], [LL + 'back_mut$'], 'latest = front'),
     ('data_struct::revision_map::RevisionMap::<K, V>::keep', [LL + 'split_off$'], [LL + 'pop_front$'], 'keep retains the head'),
-    ('core::MasterSecretKey::mpk', [LL + 'front$'], [LL + 'back$', LL + 'iter$'], 'the public key is built from the newest secret'),
+    ('core::MasterSecretKey::mpk', [LL + 'front$'], [LL + 'back$', LL + 'iter$'], 'the public key is built from the newest secret', '(bool, core::RightSecretKey)'),
     ('data_struct::revision_vec::RevisionVec::<K, T>::revisions', [LL + 'iter$'], [r'::rev$'], 'revisions start at the newest secret'),
     ('data_struct::revision_vec::RevisionVec::<K, T>::create_chain_with_single_value', [LL + 'push_front$|' + LL + 'push_back$'], [], ''),
     ('core::primitives::refresh_coordinate_keys', [LL + 'push_back$', LL + 'iter$'], [LL + 'push_front$', r'::rev$'],
-     'the merged chain is appended in iteration order from the front'),
+     'the merged chain is appended in iteration order from the front', 'RightSecretKey'),
 ]
 
 
@@ -62,15 +60,17 @@ def fn_refs(body):
     return out
 
 
-def uses(F, key, pats):
+def uses(F, key, pats, ty=None):
+    """Callees matching `pats` used by the function, its closures and the helpers it reaches; `ty` restricts to
+    calls / function items whose instantiated text mentions that element type."""
     found = []
-    for body in F.family(key):
+    for body in lib.reach_bodies(F, key):
         for c in body.calls():
-            if c.is_(*pats):
+            if c.is_(*pats) and (ty is None or ty in c.full):
                 found.append(c.defp)
         for fn in fn_refs(body):
             for p in pats:
-                if re.search(p, fn['def']) or re.search(p, fn.get('res') or ''):
+                if (re.search(p, fn['def']) or re.search(p, fn.get('res') or '')) and (ty is None or ty in fn.get('full', '')):
                     found.append(fn['def'])
     return found
 
@@ -116,32 +116,28 @@ def iter_rule(ctx):
 def orientation(ctx):
     F = ctx.F
     n = 0
-    for (key, req, forb, meaning) in ORIENTATION:
+    for row in ORIENTATION:
+        (key, req, forb, meaning) = row[:4]
+        tyf = row[4] if len(row) > 4 else None
         if key not in F.bodies:
             ctx.bad(key, 'anchor-missing', 'chain producer/consumer %s is gone' % key)
             continue
         body = F.bodies[key]
         for p in req:
             n += 1
-            got = uses(F, key, [p])
+            got = uses(F, key, [p], tyf)
             ctx.check(bool(got), key, 'uses %s' % p.replace(LL, 'LinkedList::').rstrip('$'),
                       '%s no longer goes through %s (%s): the producers and consumers of revision chains disagree on '
                       'where the newest secret is' % (key, p.replace(LL, 'LinkedList::'), meaning),
                       meaning, body.where())
         for p in forb:
-            got = uses(F, key, [p])
+            got = uses(F, key, [p], tyf)
             n += 1
             ctx.check(not got, key, 'avoids %s' % p.replace(LL, 'LinkedList::').rstrip('$'),
                       '%s uses %s: the newest secret is expected at the front of a chain (%s)' % (key, got[:1], meaning),
                       meaning, body.where())
     # insert dispatches to the two helpers
-    ib = F.fn('data_struct::revision_map::RevisionMap::<K, V>::insert')
-    cs = [lib.local_callee(F, c) for c in ib.calls()]
-    names = set(c.name for c in cs if c is not None)
-    ctx.check({'insert_in_chain', 'insert_new_chain'} <= names or uses(F, ib.key, [LL + 'push_front$']), ib.key,
-              'insert prepends', 'RevisionMap::insert no longer prepends through insert_in_chain / insert_new_chain',
-              'Occupied -> insert_in_chain, Vacant -> insert_new_chain', ib.where())
-    ctx.floor(n, 12, 'orientation sites')
+    ctx.floor(n, 11, 'orientation sites')
 
 
 @rule('C04', 'rekey-prepends', configs=('default', 'p256'))
